@@ -16,7 +16,10 @@ EXPLANATION = (
     "builder, with sub-builders opening a nested scope; inline nested scopes are compared with the nested message type's "
     "table; (C19.2) every stub written whole (append_raw_packable / append_packable) by X's writers is a type X's readers "
     "decode, and the derived pack/unpack tables of those stubs agree (C15.1 evaluated over scrunch); (C19.3) every "
-    "(number, wire type) a hand-written reader compares a parsed Tag against is emitted by a writer of the same type.  "
+"(number, wire type) a hand-written reader compares a parsed Tag against is emitted by a writer of the same type; (C19.4) a "
+    "second structural clause, of `the bit vectors answer access, rank and select exactly as a plain bit array`: the sibling "
+    "implementations (reference, rrr, cf_rrr, sparse) agree on the index domain -- access answers None exactly when index >= "
+    "len(), rank exactly when index > len() (cross-check of siblings on the comparison operator of their entry test).  "
     "TABLE reading of derived unpack switch trees, ORIGIN of builder receivers and field-number constants over resolved MIR.")
 NOT_DECIDED = ("everything else in C19: suffix-array construction, psi, backward search, rank/select, record mapping and extraction are "
                "numerical results over all inputs; the byte-level layout inside bytes fields (offsets in the prefix wavelet tree, bit "
@@ -31,6 +34,7 @@ WIRE = {"append_u32": 0, "append_u64": 0, "append_vec_u32": 0, "append_vec_usize
 
 def rules(ctx):
     c191(ctx)
+    c194(ctx)
 
 
 def builder_params(f):
@@ -320,3 +324,62 @@ def nested_check(ctx, R, W, f, scope, stubs, stub, seen, depth=0):
                             continue
                         n += nested_check(ctx, R, W, g, ("param", j + 1), stubs, stub, seen, depth + 1)
     return n
+
+
+# ------------------------------------------------------------------------------------------------
+# C19.4 sibling bit vectors agree on the index domain of access / rank
+
+def reject_relation(f):
+    """The relation between the index parameter and self.len() under which the method answers None at once:
+    '>=' / '>' / None (no such test in this function)."""
+    rels = []
+    for b in P.switch_blocks(f):
+        for c_ in K.cond_sources(f, b.idx):
+            if c_["k"] != "bin" or c_["op"] not in ("Lt", "Le", "Gt", "Ge"):
+                continue
+            a, d = c_["st"]["rv"]["a"], c_["st"]["rv"]["b"]
+
+            def is_idx(o):
+                return o.get("k") in ("copy", "move") and any(s_["k"] == "param" and s_["i"] == 2 and not s_["proj"] for s_ in P.origins(f, o))
+
+            def is_len(o):
+                return any(s_["k"] == "call" and re.search(r"::len$", s_["callee"]) and
+                           any(x["k"] == "param" and x["i"] == 1 for x in P.origins(f, s_["t"]["args"][0])) for s_ in P.origins(f, o))
+            if is_idx(a) and is_len(d):
+                op = c_["op"]
+            elif is_len(a) and is_idx(d):
+                op = {"Lt": "Gt", "Le": "Ge", "Gt": "Lt", "Ge": "Le"}[c_["op"]]
+            else:
+                continue
+            # op is now  idx OP len  on the true edge; find the edge that returns None without any further call
+            for lab, tgt in b.succs:
+                if lab not in ("sw:0", "sw:1"):
+                    continue
+                truth = lab == "sw:1"
+                calls = [P.term_pt(f, bb.idx) for bb in f.blocks if bb.term["t"] == "call"]
+                q = P.reach(f, [(tgt, 0)], P.return_points(f), avoid=set(calls))
+                if q is None:
+                    continue
+                rel = op if truth else {"Lt": "Ge", "Le": "Gt", "Gt": "Le", "Ge": "Lt"}[op]
+                if rel in ("Ge", "Gt"):
+                    rels.append(">=" if rel == "Ge" else ">")
+    return rels[0] if rels else None
+
+
+def c194(ctx):
+    R = "C19.4"
+    ctx.declare(R, "every bit vector implementation rejects the same indices: access(i) is defined for i < len, rank(i) for i <= len (siblings cross-checked)")
+    want = {"access": ">=", "rank": ">"}
+    n = 0
+    for f in sorted(ctx.prog.fns.values(), key=lambda f: f.key):
+        if f.crate != "scrunch" or not f.impl_trait or not strip_generics(f.impl_trait).endswith("bit_vector::BitVector") or f.name not in want:
+            continue
+        rel = reject_relation(f)
+        if rel is None:
+            continue      # delegates (access_rank / a wrapped vector): nothing of its own to compare
+        n += 1
+        ctx.check(R, f, "index-domain", rel == want[f.name],
+                  "%s::%s answers None exactly when index %s len()" % (strip_generics(f.impl_self or "").rsplit("::", 2)[-2:][0] if f.impl_self else "?", f.name, want[f.name]),
+                  "%s answers None when index %s len(), its siblings when index %s len(): %s" % (
+                      f.skey, rel, want[f.name], "the last valid position is refused" if (rel, want[f.name]) == (">=", ">") else "one position past the end is accepted"))
+    ctx.floor(R, "bit vector access/rank implementations with their own index test", n, 4)
